@@ -1,4 +1,8 @@
 #!/bin/sh
-# run before committing: the setup command of MANIFEST.json must succeed (full library + driver)
+# run before committing: the setup command of MANIFEST.json must succeed (full library + driver); exit status says so
 cd "$(dirname "$0")/.." || exit 2
-/venv/bin/python harness/extract_tables.py lean/Hpl/Generated/Tables.lean >/dev/null && cd lean && lake build Hpl hplmodel 2>&1 | grep -E "^error|build failed|Build completed" | head -5
+/venv/bin/python harness/extract_tables.py lean/Hpl/Generated/Tables.lean >/dev/null || exit 2
+cd lean || exit 2
+out=$(lake build Hpl hplmodel 2>&1)
+echo "$out" | grep -E "^error|build failed|Build completed" | head -5
+echo "$out" | grep -q "Build completed successfully" || exit 1
